@@ -1,10 +1,11 @@
 PROP = dict(
-    go='c17', n_quick=800, n_thorough=12000,
+    go='c17', n_quick=1200, n_thorough=12000,
     coq_header='From LC Require Import Lib.Bytes Model.StageLine Model.StageDoc Model.StageWild Model.StageWildDoc '
                'Model.Recipe Model.RecipeDoc Model.Compress Cases.C17.\nOpen Scope string_scope.\n',
     case_type='C17.case', verdict='C17.verdict', explain='C17.model',
-    rule='seven case kinds per 20 generated cases: 2 cells of the type x option matrix (6 types x 7 options, every cell '
-         'at least twice per quick run, valid value, random quoting style); 6 structured add-files lines from the '
+    rule='seven case kinds per 20 generated cases: 1 cell of the type x option matrix (6 types x 7 options, every cell '
+         'every quick run, valid value, random quoting style) and 1 entry of a boundary-value table (57 uid/gid/dev/'
+         'absent/mod/targ/src values in otherwise valid lines, all of them every quick run); 6 structured add-files lines from the '
          'documented grammar (all types incl. unknown ones, names with spaces/quotes/backslashes/tabs/UTF-8/%-verbs/'
          'escaped and wildcard asterisks, 0..5 options with valid, boundary and invalid values, bare/single/double '
          'quoting per field, blank runs) given to stage.parseLine; 3 byte-soup or damaged lines (trailing backslash, '
